@@ -3,7 +3,7 @@
 (* Union of all codec modules: one expectation function Exp(op, a) used by *)
 (* both conformance directions, one law predicate and the bounded grids.   *)
 (***************************************************************************)
-EXTENDS Pus1, Cfdp, Cds, ByteField, Uslp
+EXTENDS Pus1, CfdpMsg, Cds, ByteField, Uslp
 
 Exp(op, a) == IF op \in SpOps THEN SpExp(op, a)
               ELSE IF op \in PusOps THEN PusExp(op, a)
@@ -12,6 +12,7 @@ Exp(op, a) == IF op \in SpOps THEN SpExp(op, a)
               ELSE IF op \in CdsOps THEN CdsExp(op, a)
               ELSE IF op \in BfOps THEN BfExp(op, a)
               ELSE IF op \in UslpOps THEN UslpExp(op, a)
+              ELSE IF op \in MsgOps THEN MsgExp(op, a)
               ELSE [unknown |-> op]
 
 Law(op, a) == IF op \in SpOps THEN SpLaw(op, a)
@@ -21,6 +22,7 @@ Law(op, a) == IF op \in SpOps THEN SpLaw(op, a)
               ELSE IF op \in CdsOps THEN CdsLaw(op, a)
               ELSE IF op \in BfOps THEN BfLaw(op, a)
               ELSE IF op \in UslpOps THEN UslpLaw(op, a)
+              ELSE IF op \in MsgOps THEN MsgLaw(op, a)
               ELSE TRUE
 
 CONSTANT Tier
@@ -37,6 +39,7 @@ NParts(area) == CASE area = "cfdphdr" -> CfdpHdrNParts
                   [] area = "cds" -> CdsNParts
                   [] area = "bf" -> BfNParts
                   [] area = "uslp" -> UslpNParts
+                  [] area = "msg" -> MsgNParts
 
 GridPart(area, i) == CASE area = "cfdphdr" -> CfdpHdrGridPart(i, Tier)
                        [] area = "tlv" -> TlvGridPart(i)
@@ -50,4 +53,5 @@ GridPart(area, i) == CASE area = "cfdphdr" -> CfdpHdrGridPart(i, Tier)
                        [] area = "cds" -> CdsGridPart(i)
                        [] area = "bf" -> BfGridPart(i)
                        [] area = "uslp" -> UslpGridPart(i)
+                       [] area = "msg" -> MsgGridPart(i)
 =============================================================================
